@@ -95,6 +95,15 @@ def fixtures():
         sites, issues = rules_coll.remove_iter_issues(b)
         if sites != 1 or bool(issues) != want:
             fails.append("fixture %s: indexed-removal sites %d, issues %s (expected %s)" % (short, sites, issues, want))
+    import rules_conn
+    for short, want in (("dec_bad_buffer_19", True), ("dec_ok_buffer_20", False)):
+        b = ctx.prog.bodies.get(short)
+        n += 1
+        if b is None:
+            fails.append("fixture %s missing" % short); continue
+        iss = rules_conn.decimal_buffer_issues(b)
+        if bool(iss) != want:
+            fails.append("fixture %s: decimal buffer issues %s (expected %s)" % (short, iss, want))
     _FX = (n, fails)
     return _FX
 
